@@ -2,7 +2,10 @@
 //! /repo's working tree and prints canonical transcripts.
 //!
 //! usage: specs-harness world <histories-file>      (one history per line, integers)
+//!        specs-harness saveload <histories-file>        (specs::saveload, SimpleMarker)
+//!        specs-harness saveload-uuid <histories-file>   (specs::saveload, UuidMarker)
 //! output: one line per history, the outputs of the ops separated by " | ".
+mod saveload;
 mod world_exec;
 
 use std::io::{BufRead, Write};
@@ -26,6 +29,8 @@ fn main() {
             .collect();
         let tr = match args[1].as_str() {
             "world" => world_exec::run_history(&ints),
+            "saveload" => saveload::run_history::<saveload::Simple>(&ints),
+            "saveload-uuid" => saveload::run_history::<saveload::Uuid>(&ints),
             d => panic!("unknown domain {}", d),
         };
         let parts: Vec<String> = tr
